@@ -7,6 +7,7 @@
 #include <pthread.h>
 #include <unistd.h>
 #include <fstream>
+#include <climits>
 
 #if defined(__SANITIZE_THREAD__)
 extern "C" void __tsan_acquire(void* addr);
@@ -81,6 +82,7 @@ std::map<std::string, std::string> Executor::ctx_of(Obj& o) {
   c["solvemode"] = std::to_string(s.getInt(P::i("solvemode")));
   c["scaled"] = s.peekIsRealLPScaled() ? "1" : "0";
   c["stopped"] = o.stopped_since_change ? "1" : "0";
+  c["nonbasic_free_row"] = o.free_row_nonbasic ? "1" : "0";
   return c;
 }
 
@@ -219,7 +221,8 @@ void Executor::run_task(int task) {
     catch (const sut::Exc& e) {
       count("exception:" + op.name);
       // an exception out of an API call with valid arguments
-      if (op.name != "file" && op.name != "fileq") viol("C13", "unexpected_exception", op.text() + " -> " + e.what);
+      if (op.name == "param") viol("C15", "exception_instead_of_rejection", op.text() + " -> " + e.what);
+      else if (op.name != "file" && op.name != "fileq") viol("C13", "unexpected_exception", op.text() + " -> " + e.what);
     }
     res_.ops_done++;
   }
@@ -318,7 +321,7 @@ void Executor::op_copy(const Op& op, TaskCtx& t) {
   if (opt_.want("C17")) {
     auto& a = *src->s; auto& b = *o->s;
     std::string why;
-    if (a.numRows() != b.numRows() || a.numCols() != b.numCols() || a.numNonzeros() != b.numNonzeros()) why = "dimensions differ";
+    if (a.numRows() != b.numRows() || a.numCols() != b.numCols() || a.numNonzeros() != b.numNonzeros()) why = "dimensions differ: " + std::to_string(a.numRows()) + "x" + std::to_string(a.numCols()) + " nnz " + std::to_string(a.numNonzeros()) + " vs " + std::to_string(b.numRows()) + "x" + std::to_string(b.numCols()) + " nnz " + std::to_string(b.numNonzeros());
     for (int i = 0; why.empty() && i < a.numRows(); i++) {
       if (memcmp_d(a.lhs(i), b.lhs(i)) || memcmp_d(a.rhs(i), b.rhs(i))) why = "row side differs";
       sut::SVec ra = a.rowVec(i), rb = b.rowVec(i);
